@@ -94,7 +94,7 @@ def gen_case(rng, max_funcs=4, allow_internal=True, allow_reduce=True, allow_nom
             "name": f"f{fi}", "params": params, "outs": outnames, "mapspec": ms, "modes": modes,
             "out_axes": list(out_axes), "internal": list(internal), "internal_shape": internal_shape,
             "ret_list": ret_list,
-            "ishape_via": rng.choice(["pipefunc", "pipefunc", "map"]) if internal_shape else None,
+            "ishape_via": rng.choice(["pipefunc", "pipefunc", "map", "both"]) if internal_shape else None,
         })
         for o in outnames:
             arrays[o] = tuple(out_axes)
@@ -186,7 +186,10 @@ def build_funcs(case, log=None, fault=None, tag=None, cache=None, extra=None):
                                internal_shape=f["internal_shape"], ret_list=f["ret_list"],
                                fault=(fault or {}).get(f["name"]) if fault else None, tag=tag)
         kw = {}
-        if f["internal_shape"] and f.get("ishape_via") != "map":
+        if f["internal_shape"] and f.get("ishape_via") == "both":
+            # declared on the PipeFunc with ANOTHER shape; the value passed to map(internal_shapes=...) is documented to win
+            kw["internal_shape"] = tuple((d - 1 if d >= 2 else d + 1) for d in f["internal_shape"])
+        elif f["internal_shape"] and f.get("ishape_via") != "map":
             kw["internal_shape"] = tuple(f["internal_shape"])
         if cache and f["name"] in cache:
             kw["cache"] = True
@@ -204,7 +207,7 @@ def build_funcs(case, log=None, fault=None, tag=None, cache=None, extra=None):
 def internal_shapes_arg(case):
     d = {}
     for f in case["funcs"]:
-        if f["internal_shape"] and f.get("ishape_via") == "map":
+        if f["internal_shape"] and f.get("ishape_via") in ("map", "both"):
             for o in f["outs"]:
                 d[o] = tuple(f["internal_shape"])
     return d or None
